@@ -206,7 +206,7 @@ func childMain(cfg props.Cfg) int {
 	fmt.Sscanf(cfg.Child, "%d/%d", &w, &W)
 	em := childrun.NewEmitter()
 	rng := gen.NewRand(cfg.Seed, fmt.Sprintf("c20/%d", w))
-	budget := cfg.Pick(20000, 400000) / W
+	budget := cfg.Pick(200000, 3000000) / W
 	n := 0
 	for n < budget {
 		n += assetList(em, rng, budget-n, w == 0 && n == 0)
